@@ -27,6 +27,48 @@ def stable_key(name):
     return k
 
 
+def norm_ty(t):
+    t = strip_lt(t or '')
+    t = t.replace('&mut ', '&').replace(' ', '')
+    t = re.sub(r'\b(?:[a-z_][a-z0-9_]*::)+', '', t)   # drop module paths
+    return t
+
+
+def split_top(s):
+    """split a generic argument list at top-level commas"""
+    out, depth, cur = [], 0, ''
+    for ch in s:
+        if ch in '<([':
+            depth += 1
+        elif ch in '>)]':
+            depth -= 1
+        if ch == ',' and depth == 0:
+            out.append(cur.strip())
+            cur = ''
+        else:
+            cur += ch
+    if cur.strip():
+        out.append(cur.strip())
+    return out
+
+
+def ty_unify(pattern, concrete, generics):
+    """pattern (from an impl header, may mention the impl's generic parameters) vs a concrete printed type"""
+    if pattern == concrete:
+        return True
+    p = pattern.lstrip('&')
+    if p in generics or pattern in generics:
+        return True
+    if concrete in generics:
+        return True
+    # compare head constructors, ignoring generic arguments
+    hp = re.sub(r'<.*$', '', pattern)
+    hc = re.sub(r'<.*$', '', concrete)
+    if hp == hc and ('<' in pattern or '<' in concrete):
+        return True
+    return False
+
+
 class Fn:
     def __init__(self, d):
         self.d = d
@@ -238,6 +280,7 @@ class Facts:
             if m and '::promoted[' not in n:
                 self._closures[m.group(1)].append(n)
         self._cg = None
+        self._inst = {}
         self._by_trait = collections.defaultdict(list)
         for f in self.fns.values():
             if f.trait and not f.is_promoted and not f.is_closure:
@@ -291,25 +334,169 @@ class Facts:
         return None
 
     # ----- call graph
+    def find_impls(self, trait, self_ty=None, item=None, trait_arg=None):
+        """local impl methods of `trait` (def path) for self type `self_ty` (printed, lifetimes ignored;
+        None = any; a generic parameter name = any); `trait_arg` = first generic arg of the trait"""
+        out = []
+        want_self = norm_ty(self_ty) if self_ty else None
+        for g in self._by_trait.get(trait, []):
+            if item is not None and g.item != item:
+                continue
+            gens = set(g.d.get('generics', []))
+            if want_self is not None:
+                st = norm_ty(g.self_ty or '')
+                if not ty_unify(st, want_self, gens):
+                    continue
+            if trait_arg is not None and g.trait_full:
+                m = re.match(r'^[^<]*<(.*)>$', strip_lt(g.trait_full))
+                ta = split_top(m.group(1))[0] if m else None
+                if ta is None:
+                    # trait has a defaulted Rhs = Self
+                    ta = g.self_ty
+                if not ty_unify(norm_ty(ta), norm_ty(trait_arg), gens):
+                    continue
+            out.append(g)
+        return out
+
+    def instantiations(self, fn):
+        """for a generic local function (or a closure inside one): {param name: set of concrete printed
+        types it is instantiated with at the crate's own call sites}; a param maps to None when some
+        call site passes another type parameter / the function is public API reachable with any type"""
+        root = re.sub(r'::\{closure#\d+\}.*$', '', fn.name)
+        if root in self._inst:
+            return self._inst[root]
+        rf = self.fns.get(root)
+        gens = list(rf.d.get('generics', [])) if rf else []
+        res = {g: set() for g in gens}
+        self._inst[root] = res
+        if not gens:
+            return res
+        public = rf is not None and (rf.vis == 'Public' or rf.trait is not None)
+        for caller in self.real_fns():
+            cgens = set(caller.d.get('generics', []))
+            for _, t in caller.calls():
+                c = t['callee']
+                if c.get('def') != root and c.get('resolved') != root:
+                    continue
+                targs = [strip_lt(x) for x in c.get('gargs', []) if not x.startswith("'")]
+                if len(targs) != len(gens):
+                    for g in gens:
+                        res[g] = None
+                    continue
+                for g, a in zip(gens, targs):
+                    if res[g] is None:
+                        continue
+                    if a in cgens or a.lstrip('&') in cgens:
+                        sub = self.instantiations(caller).get(a.lstrip('&'))
+                        if sub is None:
+                            res[g] = None
+                        else:
+                            res[g] |= sub
+                    else:
+                        res[g].add(a)
+        if public:
+            for g in gens:
+                res[g] = None
+        return res
+
+    def call_targets(self, fn, t):
+        """local functions a call terminator may enter (directly, or through a std/serde trampoline)"""
+        c = t['callee']
+        out = set()
+        for a in t['args']:
+            if a.get('k') == 'const' and a.get('fn_def') in self.fns:
+                out.add(a['fn_def'])
+        if 'def' not in c:
+            return out
+        r = c.get('resolved')
+        if r and r in self.fns:
+            out.add(r)
+            return out
+        d = c['def']
+        g = [strip_lt(x) for x in c.get('gargs', [])]
+        gens = set(fn.d.get('generics', []))
+        tr = c.get('trait') or ''
+        item = d.split('::')[-1]
+
+        def is_param(x):
+            return x in gens or x.lstrip('&').replace('mut ', '') in gens or x.startswith('impl ') or x.startswith('<')
+
+        # cross-trait trampolines (table enumerated from the repository's own external generic callees)
+        tramp = []
+        if d in ('std::convert::Into::into',) and len(g) >= 2:
+            tramp.append(('std::convert::From', g[1], 'from', g[0]))
+        elif d == 'std::convert::TryInto::try_into' and len(g) >= 2:
+            tramp.append(('std::convert::TryFrom', g[1], 'try_from', g[0]))
+        elif d == 'core::str::<impl str>::parse' and g:
+            tramp.append(('std::str::FromStr', g[0], 'from_str', None))
+        elif d == 'std::string::ToString::to_string' and g:
+            tramp.append(('std::fmt::Display', g[0], 'fmt', None))
+        elif d.startswith("core::fmt::rt::Argument::<'_>::new_") and g:
+            kind = d.rsplit('new_', 1)[1]
+            trn = {'display': 'Display', 'debug': 'Debug', 'lower_exp': 'LowerExp', 'upper_exp': 'UpperExp'}.get(kind)
+            if trn:
+                tramp.append(('std::fmt::' + trn, g[-1], 'fmt', None))
+        elif d == 'serde_crate::Serializer::collect_str' and len(g) >= 2:
+            tramp.append(('std::fmt::Display', g[1], 'fmt', None))
+        elif d.startswith('serde_crate::Deserializer::deserialize_') and len(g) >= 3:
+            tramp.append(('serde_crate::de::Visitor', g[2], None, None))
+        elif d in ('serde_crate::de::MapAccess::next_value', 'serde_crate::de::SeqAccess::next_element') and len(g) >= 3:
+            tramp.append(('serde_crate::Deserialize', g[2], 'deserialize', None))
+        elif d == 'num_traits::One::is_one' and g:
+            tramp.append(('std::cmp::PartialEq', g[0], 'eq', None))
+            tramp.append(('num_traits::One', g[0], 'one', None))
+        elif d in ('std::iter::Iterator::sum', 'std::iter::Iterator::product') and len(g) >= 2:
+            tramp.append(('std::iter::Sum' if d.endswith('sum') else 'std::iter::Product', g[1], None, None))
+        for trn, selfty, it, targ in tramp:
+            st = None if is_param(selfty) else selfty.lstrip('&').replace('mut ', '')
+            ta = None if (targ is None or is_param(targ)) else targ
+            for h in self.find_impls(trn, st, it, ta):
+                out.add(h.name)
+        # same-trait: required or default method on a local Self type / on a type parameter
+        if tr and g:
+            selfty = g[0]
+            inst = None
+            if selfty.lstrip('&') in gens:
+                inst = self.instantiations(fn).get(selfty.lstrip('&'))
+            if inst is not None:
+                # every instantiation of this type parameter inside the crate is known
+                for cty in sorted(inst):
+                    for h in self.find_impls(tr, cty.lstrip('&'), item):
+                        out.add(h.name)
+            elif is_param(selfty):
+                cands = self.find_impls(tr, None, item)
+                # constrain by the first trait argument when it is concrete
+                targ = g[1] if len(g) > 1 and not is_param(g[1]) else None
+                if targ is not None:
+                    c2 = self.find_impls(tr, None, item, targ)
+                    cands = c2
+                for h in cands:
+                    out.add(h.name)
+            else:
+                st = selfty.lstrip('&').replace('mut ', '')
+                cands = self.find_impls(tr, st, item)
+                if not cands:
+                    # default method of the trait: may call any method of the local impl
+                    cands = self.find_impls(tr, st, None)
+                for h in cands:
+                    out.add(h.name)
+        return out
+
     def callees(self, fn):
-        """set of local function names this body may call (closures attached to parent;
-        unresolved trait calls expanded to every local impl method of that trait/item)"""
+        """set of local function names this body may call (closures attached to their parent)"""
         out = set()
         for _, t in fn.calls():
-            c = t['callee']
-            if 'def' not in c:
-                continue
-            r = c.get('resolved')
-            if r and r in self.fns:
-                out.add(r)
-            elif not r or (c.get('trait') and r == c['def'] and c.get('local') is False and False):
-                tr = c.get('trait')
-                if tr:
-                    item = c['def'].split('::')[-1]
-                    for g in self._by_trait.get(tr, []):
-                        if g.item == item:
-                            out.add(g.name)
-            # a resolved-to-trait-default (non local) is external
+            out |= self.call_targets(fn, t)
+        for _, st in fn.stmts():
+            rv = st['rv']
+            ops = []
+            if rv['r'] in ('use', 'cast'):
+                ops = [rv['op']]
+            elif rv['r'] == 'agg':
+                ops = rv['ops']
+            for o in ops:
+                if o.get('k') == 'const' and o.get('fn_def') in self.fns:
+                    out.add(o['fn_def'])
         for cn in self.closures_of(fn.name):
             out.add(cn)
         return out
